@@ -18,10 +18,12 @@ assert_in_tree(naming)
 
 PID = "C27"
 RULE = ("cases: histories of <= 30 operations (add, rem by name/addr/both, changeAddrAtName, changeNameAtAddr, "
-        "clear) over 4 names x 4 addrs plus '' and None, optionally after a bulk init from a (name, addr) pair list; "
+        "clear) over 4 names x 4 addrs plus '', None and an unhashable list value, optionally after a bulk init from a (name, addr) pair list; "
         "non-trivial = a rejected (raise / False) operation occurs when >= 2 entries are present and some change* "
         "operation succeeded; distinct = canonical hash of the history")
-ASSUMPTIONS = ["names and addresses are hashable non-container values (str here)"]
+ASSUMPTIONS = ["names and addresses are hashable non-container values (str here); a value that cannot be a dictionary key (a "
+               "list) is an invalid argument: the operation must be rejected, by any exception or False, and leave both mappings "
+               "unchanged (what the unchanged tree does for every operation)"]
 
 NAMES = ["a", "b", "c", "d"]
 ADDRS = ["w", "x", "y", "z"]
@@ -145,6 +147,32 @@ def run_case(case):
         before_a, before_n = nm.addrByName, nm.nameByAddr
         size_before = len(before_a)
         got = None
+        unhashable = any(isinstance(x, list) for x in op[1:])
+        if unhashable:
+            # an argument that cannot be a dictionary key is an invalid argument: however it is rejected (any exception, or
+            # False), both mappings must be left as they were
+            try:
+                if kind == "add":
+                    res = nm.addNameAddr(op[1], op[2])
+                elif kind == "rem":
+                    res = nm.remNameAddr(name=op[1], addr=op[2])
+                elif kind == "chaddr":
+                    res = nm.changeAddrAtName(name=op[1], addr=op[2])
+                else:
+                    res = nm.changeNameAtAddr(addr=op[1], name=op[2])
+            except Exception:      # noqa: BLE001 - the kind of rejection is not judged
+                res = "raise"
+            r.labels.append("unhashable-argument")
+            if res is True:
+                r.fail("C27/unhashable-accepted", "step %d %r returned True" % (i, op))
+                return r
+            if (nm.addrByName, nm.nameByAddr) != (before_a, before_n):
+                r.fail("C27/rejected-op-changed-state", "step %d %r -> %r changed %r / %r to %r / %r" % (
+                    i, op, res, before_a, before_n, nm.addrByName, nm.nameByAddr))
+                return r
+            if not check_state(r, nm, model, i):
+                return r
+            continue
         try:
             if kind == "add":
                 exp = model.add(op[1], op[2])
@@ -204,6 +232,11 @@ def _strategy():
         st.tuples(st.just("chname"), ad, nm),
         st.tuples(st.just("add"), nm, ad),
         st.tuples(st.just("clear")),
+        # a value that cannot be a key (a [host, port] list as decoded from JSON) in either position
+        st.tuples(st.sampled_from(["add", "rem", "chaddr"]), nm, st.just(["h", 1])),
+        st.tuples(st.sampled_from(["add", "rem", "chaddr"]), st.just(["n"]), ad),
+        st.tuples(st.just("chname"), ad, st.just(["n"])),
+        st.tuples(st.just("chname"), st.just(["h", 1]), nm),
     ).map(list)
     init = st.one_of(
         st.none(), st.none(),
